@@ -83,11 +83,14 @@ def gen_div(rng, tag, coarse_band=False):
         M = tissue.rnd_rot(rng) if shape != "symmetric_unperturbed" else None
         cells.append((i, tissue.transform(n0, M, (shift[0] + i * 3.5 * R, shift[1], shift[2]), (R, R, R)), f))
     lmin = 7.5e-7 if lvl == 2 else 1.5e-6
-    p = tissue.params(dt=1e-7, damping=5e-10, T=1.0, S=1.0, lmin=lmin * (rng.choice([1.0, 0.7, 1.3, 1.0, 2.5]) if not coarse_band else rng.choice([2.5, 4.0, 6.0])), cut_adh=5e-7, cut_rep=5e-7, swap=rng.choice([0, 1]))
+    mult = rng.choice([1.0, 0.7, 1.3, 1.0, 2.5]) if not coarse_band else rng.choice([2.5, 4.0, 6.0])
+    p = tissue.params(dt=1e-7, damping=5e-10, T=1.0, S=1.0, lmin=lmin * mult, cut_adh=5e-7, cut_rep=5e-7, swap=rng.choice([0, 1]))
     axk = rng.choice(["natural", "natural", "random", "x", "-x", "y", "-y", "z", "-z"])
     axis = {"natural": [0, 0, 0], "x": [1.0, 0, 0], "-x": [-1.0, 0, 0], "y": [0, 1.0, 0], "-y": [0, -1.0, 0], "z": [0, 0, 1.0], "-z": [0, 0, -1.0]}.get(axk) or rnd_unit(rng)
     line = tissue.fmt_tissue(p, cts, cells) + " DIV %d %d %s" % (rng.randrange(10 ** 6), 0 if axk == "natural" else 1, " ".join(hx(float(x)) for x in axis))
-    return dict(line=line, shape=shape, axis=axk, nc=nc, level=lvl)
+    # with l_min above the mother's edge length the refinement of the daughters collapses them to a handful of nodes: no
+    # "remeshing tolerance" is left, only the topological clauses and the bookkeeping are judged
+    return dict(line=line, shape=shape, axis=axk, nc=nc, level=lvl, coarse=mult >= 2.0)
 
 
 def gen_multi(rng):
@@ -163,7 +166,7 @@ def oracle(c, mother, stages, res, after, pop, devs):
                 return "daughters_have_mothers_type"
             if d["valid"] != 1:
                 return "daughter_is_closed_oriented_manifold"
-            if not d["svol"] > 0:
+            if not d["svol"] > 0 and not c.get("coarse"):
                 return "daughter_oriented_outward (signed volume %r)" % d["svol"]
             if d["tvol"] != mother["tvol"] / 2:
                 return "daughter_inherits_half_target_volume (%r vs %r)" % (d["tvol"], mother["tvol"] / 2)
@@ -172,8 +175,9 @@ def oracle(c, mother, stages, res, after, pop, devs):
         if not ((a["lo"] >= -tol and b["hi"] <= tol) or (b["lo"] >= -tol and a["hi"] <= tol)):
             return "each_daughter_on_its_own_side_of_the_plane (ranges along the axis: [%.3e, %.3e] and [%.3e, %.3e] cell sizes)" % (a["lo"] / R, a["hi"] / R, b["lo"] / R, b["hi"] / R)
         dev = abs(a["vol"] + b["vol"] - mother["vol"]) / mother["vol"]
-        devs.append(dev)
-        if dev > 0.12:
+        if not c.get("coarse"):
+            devs.append(dev)
+        if dev > 0.12 and not c.get("coarse"):
             return "daughter_volumes_add_up_to_mothers (relative deviation %.3f)" % dev
     # population bookkeeping of cell_divider::run
     before = pop["before"]; aft = pop["after"]
